@@ -62,7 +62,8 @@ ELEMS_UP = ['C', 'C', 'C', 'N', 'O', 'S', 'P', 'F', 'Cl', 'Br', 'I', 'H', 'B', '
 ELEMS_LOW = ['c', 'c', 'c', 'n', 'o', 's', 'p', 'b']
 LABELS = ['g', 'a_1', 'x-2', 'Q9', 'alkyl', '0', '-', 'aryl_2']
 SYMS = ['-', '=', '#', '$', ':', '.']
-RING_IDS = ['1', '2', '3', '4', '5', '7', '9', '0', '10', '12', '07', '123', '21']
+RING_IDS = ['1', '2', '3', '4', '5', '7', '9', '0', '10', '12', '07', '123', '21', '6', '8', '00']
+DIGITS = list("0123456789")
 
 
 # ---------------------------------------------------------------------------
@@ -186,6 +187,52 @@ def py_events(chain):
                 walk(it[2], (u, it[1]))
     walk(chain, None)
     return atoms, bonds, marks, has_rc[0], sorted(open_ids)
+
+
+def ring_form_tags(chain):
+    """tags describing the FORM of the ring closures of a writing (oracle on the syntax tree, independent of who wrote
+    it): label 0, a label taken again after its ring was closed, a ring bond between textually consecutive atoms (ring
+    opened on the last atom of a branch and closed on the first atom after it, or across a dot), a ring bond that
+    crosses a dot"""
+    tags = set()
+    frag = []                 # union-find over atoms: joined by tree bonds other than `.`
+    ring_bonds = []           # (opening atom, closing atom, bond written at the closing digit)
+    open_ids = {}
+    n_opened = collections.Counter()
+
+    def find(x):
+        while frag[x] != x:
+            frag[x] = frag[frag[x]]
+            x = frag[x]
+        return x
+
+    def walk(c, parent):
+        u = len(frag)
+        frag.append(u)
+        if parent is not None and parent[1] != ('s', '.'):
+            frag[find(u)] = find(parent[0])
+        for it in c[1]:
+            if it[0] == 'r':
+                if it[2] == '0':
+                    tags.add("ring_label:0")
+                if it[2] in open_ids:
+                    ring_bonds.append((open_ids.pop(it[2]), u, it[1]))
+                else:
+                    open_ids[it[2]] = u
+                    n_opened[it[2]] += 1
+            else:
+                walk(it[2], (u, it[1]))
+    walk(chain, None)
+    if any(k > 1 for k in n_opened.values()):
+        tags.add("ring_label:reused_after_closing")
+    for u, v, b in ring_bonds:
+        if b == ('s', '.') or u == v:
+            continue
+        if abs(u - v) == 1:
+            tags.add("ring_bond:consecutive_atoms")
+        if find(u) != find(v):
+            tags.add("ring_bond:across_dot")
+    return sorted(tags)
 
 
 def rc_val(t):
@@ -458,17 +505,25 @@ def gen_chain(rng, n_atoms, its, multi, p_low):
     root = gen_tree(rng, [n_atoms - 1], its, p_low)
     atoms = textual_atoms(root, [])
     n = len(atoms)
-    # tree-bonded pairs (parent/child), to avoid double bonds in simple graphs
+    # tree-bonded pairs (parent/child), to avoid double bonds in simple graphs; a pair the tree joins with `.` is NOT
+    # bonded: a ring closure across the dot (`C1.C1`) is a valid writing of a bond between the two atoms
     bonded = set()
     for nd in atoms:
         for it in nd.items:
-            if it[0] != 'r':
+            if it[0] != 'r' and it[1] != ('s', '.'):
                 bonded.add(frozenset((nd.idx, it[2].idx)))
     # ring edges = the non-tree edges of the graph
     n_rings = 0 if n < 2 else rng.choice([0, 0, 1, 1, 2, 3, 4])
     rings = []
-    for _ in range(n_rings):
-        u, v = rng.sample(range(n), 2)
+    wanted = [tuple(rng.sample(range(n), 2)) for _ in range(n_rings)]
+    # a ring bond between TEXTUALLY CONSECUTIVE atoms that the text does not bond otherwise: the ring is opened on
+    # the last atom of a branch and closed on the first atom after it (`CC(C1)C1`), or it crosses a dot (`C1.C1`);
+    # no depth-first SMILES writer produces such a writing
+    if n >= 2 and rng.random() < 0.2:
+        cand = [(i, i + 1) for i in range(n - 1) if multi or frozenset((i, i + 1)) not in bonded]
+        rng.shuffle(cand)
+        wanted = cand[:rng.choice([1, 1, 2])] + wanted
+    for u, v in wanted:
         pair = frozenset((u, v))
         if pair in bonded and not multi:
             continue
@@ -507,6 +562,7 @@ def gen_chain(rng, n_atoms, its, multi, p_low):
     opener = {}
     ring_bonds = []
     free_pref = rng.random()
+    digit_order = rng.sample(DIGITS, len(DIGITS))
 
     def number(nd, k):
         it = nd.items[k]
@@ -519,11 +575,15 @@ def gen_chain(rng, n_atoms, its, multi, p_low):
         else:
             opener[no] = nd.idx
             used = set(open_ids.values())
-            if free_pref < 0.5:
+            if free_pref < 0.4:
                 cands = [i for i in RING_IDS if i not in used]
                 rid = cands[0] if rng.random() < 0.6 else rng.choice(cands)
-            else:
+            elif free_pref < 0.7:
                 rid = rng.choice([i for i in RING_IDS if i not in used])
+            else:
+                # single digits 0-9 (0 included), a label is taken again as soon as its ring is closed
+                cands = [i for i in digit_order if i not in used] or [i for i in RING_IDS if i not in used]
+                rid = cands[0] if rng.random() < 0.7 else rng.choice(cands)
             open_ids[no] = rid
             it[2] = rid
     walk_marks(root, number)
@@ -566,11 +626,33 @@ def canon_graph(g):
     return [multi, nodes, edges]
 
 
-def impl_parse(s, multi, aam, off, via_function=False):
+# the ways a caller reaches the parser (besides the module-level parse() and a reused Parser object): the method
+# `Parser.parse` and CALLING the object, offset positional / by keyword / omitted (when it is 0), `verbose=True`
+ENTRIES = ["Parser.parse(kw)"] * 9 + ["Parser.parse(pos)"] * 3 + ["Parser.__call__(pos)"] * 3 + ["Parser.__call__(kw)"] * 3 + \
+          ["Parser.parse(offset_omitted)"] * 1 + ["Parser.__call__(offset_omitted)"] * 1 + ["Parser(verbose=True).parse"] * 1
+
+
+def impl_parse(s, multi, aam, off, via_function=False, entry=None):
     import fgutils.parse as P
     if via_function:
         return P.parse(s, idx_offset=off, init_aam=aam)
-    return P.Parser(use_multigraph=multi, init_aam=aam).parse(s, idx_offset=off)
+    if entry == "Parser(verbose=True).parse":
+        import contextlib
+        import io
+        with contextlib.redirect_stdout(io.StringIO()):
+            return P.Parser(use_multigraph=multi, init_aam=aam, verbose=True).parse(s, idx_offset=off)
+    p = P.Parser(use_multigraph=multi, init_aam=aam)
+    if entry == "Parser.parse(pos)":
+        return p.parse(s, off)
+    if entry == "Parser.__call__(pos)":
+        return p(s, off)
+    if entry == "Parser.__call__(kw)":
+        return p(s, idx_offset=off)
+    if off == 0 and entry == "Parser.parse(offset_omitted)":
+        return p.parse(s)
+    if off == 0 and entry == "Parser.__call__(offset_omitted)":
+        return p(s)
+    return p.parse(s, idx_offset=off)
 
 
 def impl_tokens(s):
@@ -710,7 +792,16 @@ def check_case(chain, s, multi, aam, off, rng=None, tags=(), in_domain=True, met
             m["reused_parser"] = False
             g = ml_parse(s, off, aam)
         else:
-            g = call_impl(impl_parse, s, multi, aam, off, False)
+            entry = rng.choice(ENTRIES) if rng is not None else "Parser.parse(kw)"
+            if off != 0 and entry.endswith("(offset_omitted)"):
+                entry = "Parser.__call__(pos)"
+            m["entry"] = entry
+            tags.append("entry:" + entry)
+            g = call_impl(impl_parse, s, multi, aam, off, False, entry)
+    if reused is not None:
+        tags.append("entry:reused_Parser_object.parse")
+    elif via_function:
+        tags.append("entry:module_level_parse()")
     if isinstance(g, ImplError):
         exact, can = [Atom("raised"), Atom(g.kind)], g
     else:
@@ -772,6 +863,11 @@ CORPUS = [
     ("CCl", False, False, 0), ("ClC#N", False, False, 0), ("CSeC", False, False, 0),
     ("HBrClSeSnSiMgLiCNOPSFBI", False, True, 2), ("bcnops", False, False, 0), ("C-C=C#C$C:C.C", False, False, 0),
     ("C-C=C#C$C:C.C<1,2>C", True, True, 1), ("C1CC#1", False, False, 0), ("ClC(Cl)(Br)SeC1CSi$1", False, False, 0),
+    # forms no depth-first SMILES writer produces: ring label 0 / a label taken again, a ring bond between textually consecutive
+    # atoms (opened on the last atom of a branch, closed on the first atom after it), a ring closure across a dot
+    ("C0CC0", False, False, 0), ("c0ccccc0C0CC0", False, True, 2), ("CC(C1)C1", False, False, 0), ("C(=C1)C1", False, False, 3),
+    ("C(CCCC1)C1", False, False, 0), ("C1.C1", False, False, 0), ("c1ccccc1C2.C2", False, False, 1), ("C1.C=1", True, False, 0),
+    ("C(C1)(C1)", False, False, 0), ("C(C)1CC1", False, False, 0), ("C1.C<1,2>1", False, False, 0),
     # the 12-atom ITS pattern of the non-vacuity examples in Proofs/C01.lean
     ("C1(=O)c2ccccc2<1,2>N(.{g,a_1})<2,1>C$1.R", False, True, 3),
     ("C1(=O)c2ccccc2<1,2>N(.{g,a_1})<2,1>C$1.R", True, False, 0),
@@ -938,6 +1034,7 @@ def run(tier, seed):
             expect = canon(expected_canon(atoms, bonds, has_rc, multi, aam, off)) if in_dom else None
             tags = list(t0) + ["valid_writing" if in_dom else "not_WF"]
             tags += [k for k in ("rings", "dots", "labels", "lower", "rc", "branches", "quad", "wild", "multidigit", "ring_bond", "ring_dot") if st[k]]
+            tags += ring_form_tags(c)
             tags += ["multigraph" if multi else "simple", "aam" if aam else "no_aam", "off=%d" % off,
                      "atoms>=12" if st['atoms'] >= 12 else "atoms<12"]
             if in_dom:
@@ -986,6 +1083,8 @@ def run(tier, seed):
     r.extra_cov["spec_fails_on_model_output"] = spec_model_fail
     r.extra_cov["out_of_domain_disagreement_samples"] = ood_samples
     r.extra_cov["generated_writings_valid_by_construction"] = n_generated
+    r.extra_cov["cases_by_entry_point"] = {k[len("tag:entry:"):]: v for k, v in sorted(r.dist.items()) if k.startswith("tag:entry:")}
+    r.extra_cov["cases_by_ring_form"] = {k[len("tag:"):]: v for k, v in sorted(r.dist.items()) if k.startswith(("tag:ring_label:", "tag:ring_bond:"))}
     r.extra_cov["history_cases_on_reused_parser_objects"] = history_cases
     r.extra_cov["history_cases_where_reused_object_differs_from_fresh_object"] = history_differs
     r.extra_cov["invalid_stream_cases"] = n_invalid_stream
@@ -1023,7 +1122,11 @@ def run(tier, seed):
     return r.finish(
         level="proof",
         rule="random syntax trees (1-20 atoms; every element of the documented alphabet incl. lower-case, R, {labels}; branches to depth 4; 0-4 ring "
-             "closures with re-used and multi-digit ids placed before/between/after branches; explicit vs implied bonds over - = # $ : . and <g,h>; dots "
+             "closures with re-used and multi-digit ids (single digits 0-9 incl. 0 taken again after closing in 30% of the writings) placed before/between/after branches; in 20% "
+             "of the writings a ring bond between TEXTUALLY CONSECUTIVE atoms that the text does not bond otherwise (ring opened on the last atom of a branch and closed on the "
+             "first atom after it `CC(C1)C1`, ring closure across a dot `C1.C1`; tags ring_label:* / ring_bond:* by an oracle on the tree); ENTRY POINTS (tags entry:*): "
+             "Parser.parse / calling the Parser object (offset positional, keyword, omitted), verbose=True, module-level parse() 30% of the simple-graph cases, reused object 20%; "
+             "explicit vs implied bonds over - = # $ : . and <g,h>; dots "
              "in branches and before ring closures) x idx_offset x init_aam x use_multigraph; valid by construction; in-domain = Python oracle py_wf = Lean "
              "WFRef (reference tables, nothing regenerated from the source); non-trivial = >=3 atoms with a ring or branch, distinct by (string, options); "
              "1/16 invalid stream (11 kinds) and the malformed stream out of domain; HISTORY: every 5th valid generated writing is parsed on a long-lived "
@@ -1046,7 +1149,8 @@ def replay(path):
         print("replay file has no request (proof obligation / correspondence record): %s" % d.get("theorem_or_correspondence"))
         return 1
     req = parse_sx(line)
-    print("pattern: %r options: multi=%s aam=%s off=%s" % (m.get("pattern"), m.get("multi"), m.get("aam"), m.get("off")))
+    print("pattern: %r options: multi=%s aam=%s off=%s entry=%s" % (m.get("pattern"), m.get("multi"), m.get("aam"), m.get("off"),
+                                                                    m.get("entry") or ("module-level parse()" if m.get("via_function") else "Parser.parse")))
     if m.get("history") is not None:
         print("%s had been used before for %d call(s) (the last ones):" % (
             "HISTORY scenario: the Parser object" if m.get("reused_parser") else "the module-level parse()", len(m["history"])))
@@ -1058,7 +1162,7 @@ def replay(path):
         elif m.get("history") is not None:
             g = ml_replay(m["history"], m["pattern"], int(m["off"]), bool(m["aam"]))
         else:
-            g = call_impl(impl_parse, m["pattern"], bool(m["multi"]), bool(m["aam"]), int(m["off"]))
+            g = call_impl(impl_parse, m["pattern"], bool(m["multi"]), bool(m["aam"]), int(m["off"]), False, m.get("entry"))
         can = g if isinstance(g, ImplError) else canon_graph(g)
         now = sx([Atom("raised"), Atom(can.kind)]) if isinstance(can, ImplError) else sx(can)
         print("implementation now : %s" % now)
